@@ -91,6 +91,20 @@ def gen_file(repo):
     fmt_shape = bool(re.search(r'return\s+vfprintf\s*\(\s*f->file\s*,\s*fmt\s*,\s*va\s*\)\s*;', bodies['File_Format_To'])) and \
         bool(re.search(r'return\s+vfscanf\s*\(\s*f->file\s*,\s*fmt\s*,\s*va\s*\)\s*;', bodies['File_Format_From']))
     inst = {c: instance_members(src, c) for c in ('New', 'Start', 'Stream', 'Format')}
+    # which classes File implements at all (no Assign, no Copy: copy / assign take the generic fall-back paths)
+    md = re.search(r'var\s+File\s*=\s*Cello\s*\(\s*File\s*,', src)
+    decl = src[md.start():balanced(src, src.index('(', md.start()))]
+    inst_classes = re.findall(r'Instance\s*\(\s*(\w+)\s*,', decl)
+    # the generic fall-backs: assign without an Assign instance is memcpy of size(type) bytes; copy without a Copy instance
+    # is assign(alloc(type), self)
+    ba = re.sub(r'\s+', ' ', func_body(read(f'{repo}/src/Assign.c'), 'assign'))
+    m1 = re.search(r'if \(a and a->assign\) \{ a->assign\(self, obj\); return self; \}', ba)
+    m2 = re.search(r'size_t s = size\(type_of\(self\)\); if \(type_of\(self\) is type_of\(obj\) and s\) \{ return memcpy\(self, obj, s\); \}', ba)
+    assign_memcpy = bool(m1) and bool(m2) and m1.start() < m2.start() and 'memcpy' not in ba[:m2.start()]
+    bcp = re.sub(r'\s+', ' ', func_body(read(f'{repo}/src/Alloc.c'), 'copy'))
+    m3 = re.search(r'if \(c and c->copy\) \{ return c->copy\(self\); \}', bcp)
+    m4 = re.search(r'return assign\(alloc\(type_of\(self\)\), self\);', bcp)
+    copy_assign_alloc = bool(m3) and bool(m4) and m3.start() < m4.start()
     # with / start_in / stop_in
     hdr = read(f'{repo}/include/Cello.h')
     mw = re.search(r'#define\s+with_in\(X,\s*S\)\s+(.*)', hdr)
@@ -151,6 +165,12 @@ def instNew : List String := {lean_list([lean_str(x) for x in inst['New']])}
 def instStart : List String := {lean_list([lean_str(x) for x in inst['Start']])}
 def instStream : List String := {lean_list([lean_str(x) for x in inst['Stream']])}
 def instFormat : List String := {lean_list([lean_str(x) for x in inst['Format']])}
+/-- every class `File` declares an instance of, in the order of `var File = Cello(File, …)` -/
+def instClasses : List String := {lean_list([lean_str(x) for x in inst_classes])}
+/-- src/Assign.c `assign`: the type's Assign instance if it has one, else `memcpy(self, obj, size(type_of(self)))` -/
+def assignFallsBackToMemcpy : Bool := {b(assign_memcpy)}
+/-- src/Alloc.c `copy`: the type's Copy instance if it has one, else `assign(alloc(type_of(self)), self)` -/
+def copyFallsBackToAssignAlloc : Bool := {b(copy_assign_alloc)}
 
 /-- `with_in`, `start_in`, `stop_in` (whitespace-normalised) -/
 def withMacro : String := {lean_str(with_macro)}
